@@ -149,7 +149,7 @@ def xyz2lab(xyz, dtype=None):
     def f(t):
         branch_large = t**(1./3)
         branch_small = ((1/3.)*(29./6)*(29./6))*t + 4/29.
-        return np.choose(t <= (6./29)**2, [branch_large, branch_small])
+        return np.choose(t <= (6./29)**3, [branch_large, branch_small])
     xn, yn, zn = 0.95047, 1., 1.08883
     fx = f(x/xn)
     fy = f(y/yn)
